@@ -11,7 +11,7 @@ from ..runner import d64, digest_of, violation
 from .c02 import intra_frame_boundaries, run_reader
 
 PROP = "C17"
-RUNS = {"quick": 8000, "thorough": 500000}
+RUNS = {"quick": 24000, "thorough": 500000}
 BLOCK = {"quick": 100, "thorough": 1000}
 SHRINK_LISTS = ["items", "decisions"]
 RULE = (
@@ -24,7 +24,7 @@ RULE = (
 )
 ASSUMPTIONS = [
     "wrong CRC bytes differ from the right ones in an arbitrary way; the payload is untouched",
-    "frame extents are located in the bytes handed to the reader (leftmost match behind the previous extent)",
+    "frames are attributed to script items by order (ground-truth offsets); 'bytes taken per frame' is decided by every frame behind a wrong-CRC / unparsed one still being delivered intact and in order, plus each frame having been fully handed over when returned",
 ]
 
 
@@ -56,17 +56,6 @@ def generate(master, index, tier):
 
 def _frames(events):
     return [(bytes(e[1]), e[2], e[3]) for e in events if e[0] == "frame"]
-
-
-def _extents(frames, handed):
-    out = []
-    end = 0
-    for raw, _p, upto in frames:
-        a = handed.find(raw, end, upto)
-        out.append((a, a + len(raw)) if a >= 0 else None)
-        if a >= 0:
-            end = a + len(raw)
-    return out
 
 
 def execute(scn):
@@ -144,21 +133,28 @@ def execute(scn):
                 viol = violation(PROP, "parsed-false-frames", f"parsed=False returned {len(C)} frames vs {len(A)} with parsing on (or different bytes/order)")
             elif any(f[1] is not None for f in C):
                 viol = violation(PROP, "parsed-false-object", "parsed=False returned a message object")
-        # 3. bytes taken per frame
+        # 3. bytes taken per frame.  Frames are attributed to script items by
+        # order (ground truth), never by searching for their bytes: the same
+        # frame may legitimately occur twice in a stream (repeated, or embedded
+        # in a UBX payload), which makes a byte search ambiguous.
         if viol is None:
-            xB = _extents(B, stB.handed())
-            xE = _extents(E, stE.handed())
-            xD = _extents(D, stD.handed())
             if [f[0] for f in E] != expected2 or any(f[1] is not None for f in E):
                 viol = violation(PROP, "parsed-false-frames", f"parsed=False over S' returned {len(E)} frames, {len(expected2)} in the stream")
-            elif None in xB or xB != xE:
-                viol = violation(PROP, "extents-differ", f"frame extents with validate=0 {xB[:6]} vs parsed=False {xE[:6]}")
             elif [f[0] for f in D] != untouched:
-                viol = violation(PROP, "validate1-frames", f"validate=1 over S' returned {len(D)} frames, {len(untouched)} have an untouched CRC")
+                i = 0
+                while i < len(D) and i < len(untouched) and D[i][0] == untouched[i]:
+                    i += 1
+                viol = violation(PROP, "validate1-frames", f"validate=1 over S' returned {len(D)} frames, {len(untouched)} have an untouched CRC; first difference at {i}")
             else:
-                keep = [x for x, it in zip(xB, [i for i in bad_items if i[0] in ("frame", "bad")]) if it[0] == "frame"]
-                if xD != keep:
-                    viol = violation(PROP, "extents-differ", f"extents of untouched frames move when their neighbours' CRCs are wrong: {xD[:6]} vs {keep[:6]}")
+                # every delivered frame must have been fully handed over when it was returned
+                offs = [o for o, it in zip(W.offsets_of(bad_items), bad_items) if it[0] in ("frame", "bad")]
+                for name, frames in (("validate=0", B), ("parsed=False", E)):
+                    for (s0, e0), f in zip(offs, frames):
+                        if f[2] < e0:
+                            viol = violation(PROP, "extents-differ", f"{name}: frame at [{s0},{e0}) returned when only {f[2]} bytes had been handed to the reader")
+                            break
+                    if viol:
+                        break
     intra = intra_frame_boundaries(stA, good_items)
     foreign = sum(1 for it in items if it[0] in ("nmea", "ubx", "noise"))
     explicit = dict(base)
